@@ -564,6 +564,12 @@ def bv_uint_items(ctx):
     it = BV_BASE + titems(ctx) + [("stub", "bvf.assign_uint_" + k), ("stub", "bvd.assign_uint_" + k)]
     return it + verify(["bv.assign_uint_" + k])
 GROUPS["bv_uint"] = dict(name="bv_uint", features="#![feature(allocator_api)]", prelude=lambda ctx: BV_VAL_PRELUDE + tvocab(ctx), items=bv_uint_items)
+# ---- shift forwarders (generated units): ctx I (Bvf storage word), T amount type
+BVF_SHIFT_FORMS = ["bvf.%s_%s" % (d, f) for d in ("shl", "shr") for f in ("assign_ref", "owned_val", "owned_ref", "refrecv_val", "refrecv_ref")]
+BVD_SHIFT_FORMS = ["bvd.%s_%s" % (d, f) for d in ("shl", "shr") for f in ("assign_ref", "owned_val", "owned_ref", "refrecv_ref")]
+GROUPS["bvf_shift_forms"] = G("bvf_shift_forms", BVF_PRELUDE, BVF_BASE + stub(BVF_CORE) + stub(["bvf.shl_assign", "bvf.shr_assign"]) + verify(BVF_SHIFT_FORMS))
+GROUPS["bvd_shift_forms"] = G("bvd_shift_forms", BVD_PRELUDE, BVD_BASE + stub(BVD_CORE) + stub(["bvd.shl_assign", "bvd.shr_assign", "bvd.shl_ref", "bvd.shr_ref"]) + verify(BVD_SHIFT_FORMS))
+GROUPS["bvd_shift_forms"]["features"] = "#![feature(allocator_api)]"
 GROUPS["div_theory"] = dict(name="div_theory", prelude=lambda ctx: WORD_PRELUDE + VALUE_PRELUDE + ["value_div.rs"], items=lambda ctx: [("decl", "decl.Bit")])
 GROUPS["mul_theory"] = dict(name="mul_theory", prelude=lambda ctx: WORD_PRELUDE + VALUE_PRELUDE + ["value_mul.rs"], items=lambda ctx: [("decl", "decl.Bit")])
 
@@ -748,6 +754,10 @@ PROPS["C01"]["quick"] += mul_jobs(PQ, WQ)
 PROPS["C01"]["thorough"] += mul_jobs(PT, W4)
 PROPS["C17"] = {"quick": [("iter_bvd", dict(U64, **ITER_BVD)), ("iter_bv", dict(U64, **ITER_BV))] + [("iter_bvf", iter_bvf(i)) for i in WQ],
                  "thorough": [("iter_bvd", dict(U64, **ITER_BVD)), ("iter_bv", dict(U64, **ITER_BV))] + [("iter_bvf", iter_bvf(i)) for i in W4]}
+def shift_forms_jobs(ws, ts):
+    return [("bvf_shift_forms", {"I": i, "T": t}) for i in ws for t in ts] + [("bvd_shift_forms", {"I": "u64", "T": t}) for t in ts]
+PROPS["C05"]["quick"] += shift_forms_jobs(["u8"], ["u128"])
+PROPS["C05"]["thorough"] += shift_forms_jobs(W4, TYPES6)
 def dshift_ref(ts):
     return [("bvd_shift_ref", {"I": "u64", "T": t}) for t in ts]
 PROPS["C05"]["quick"] += dshift_ref(["u8", "u128"])
@@ -810,7 +820,7 @@ _BV_Q = BV_CORE_J + BV_MORE_J + bv_ops_jobs(["u64"], ("or",), BITOPS) + bv_ops_j
 # ... plus the editing / slicing units (normalisation after resize, copy_range, push/pop is where stale storage would appear)
 _EDIT_Q = jobs("bvf_core", ["u64"]) + jobs("bvf_slice", WQ) + [("bvd_core", U64), ("bvd_edit", U64), ("bvd_slice", U64)]
 PROPS["C03"] = {"quick": _ARITH_Q + BVD_ARITH_JOBS + _BITOPS_Q + _BV_Q + _EDIT_Q, "thorough": PROPS["C01"]["thorough"] + PROPS["C04"]["thorough"]}
-PROPS["C20"] = {"quick": _ARITH_Q + BVD_ARITH_JOBS + _BITOPS_Q + bv_ops_jobs(["u64"], ("or",), BITOPS) + bv_ops_jobs(["u64"], ("add", "sub"), ARITH_D) + bv_shift_jobs(["u128"]) + dshift_ref(["u128", "usize"]) + [("bvd_misc", U64)] + FORMS_Q, "thorough": PROPS["C01"]["thorough"] + PROPS["C04"]["thorough"] + PROPS["C05"]["thorough"] + FORMS_T}
+PROPS["C20"] = {"quick": _ARITH_Q + BVD_ARITH_JOBS + _BITOPS_Q + bv_ops_jobs(["u64"], ("or",), BITOPS) + bv_ops_jobs(["u64"], ("add", "sub"), ARITH_D) + bv_shift_jobs(["u128"]) + dshift_ref(["u128", "usize"]) + [("bvd_misc", U64)] + shift_forms_jobs(["u64"], ["u8"]) + FORMS_Q, "thorough": PROPS["C01"]["thorough"] + PROPS["C04"]["thorough"] + PROPS["C05"]["thorough"] + FORMS_T}
 def div_jobs(pairs, ws):
     return ([("div_theory", {"I": "u64"})] + [("bvf_div", pair(i, j)) for (i, j) in pairs] + [("bvf_div_bvd", dctx(i)) for i in ws] + [("bvd_div_bvf", pair("u64", j)) for j in ws] + [("bv_div", U64), ("bvd_div", U64), ("bvd_conv_self", U64)])
 PROPS["C02"] = {"quick": BVD_ARITH_JOBS[1:] + div_jobs(PQ, WQ), "thorough": BVD_ARITH_JOBS + div_jobs(PT, W4)}
@@ -833,7 +843,7 @@ MANIFEST_TEXT["C05"] = dict(
 COVER_BVF = ("Covered so far: the Bvf<u8|u16|u32|u64, N> implementation (symbolic N), the Bvd implementation (symbolic word count, spare capacity included) and the Bv (auto) layer on top of them "
              "(dispatch on the inline Bvf<u64,2> / heap Bvd representation incl. the switching in reserve, shrink_to_fit, push, resize, copy_range; abstract view slen/sbit/scap), all lengths and values, dev and release expansions. ")
 TODO_NOTE = "Not yet under contract (so a change there is NOT detected by the proof stage yet): u128/usize word types, Bv::append/prepend"
-MANIFEST_TEXT["C05"]["note"] = (COVER_BVF + "Units: ShlAssign/ShrAssign<T> for all six T, shl_in, shr_in. " + TODO_NOTE + ", the by-value/by-reference wrapper forms. " + TRUST_NOTE)
+MANIFEST_TEXT["C05"]["note"] = (COVER_BVF + "Units: ShlAssign/ShrAssign<T> for all six T, shl_in, shr_in. " + TODO_NOTE + ". The by-value / by-reference shift forms of Bvf and Bvd (forwarders) are verified against the same contract. " + TRUST_NOTE)
 MANIFEST_TEXT["C06"] = dict(
     text=("Proof: the real bodies of Bvf::rotl / Bvf::rotr are verified against `bit t of result == bit (t+n-k) mod n (resp. (t+k) mod n) of self`, "
           "length unchanged, storage beyond len zero, for all n, values and 0 <= k <= n; inverse/complement laws follow from proved index lemmas (spec/prelude/rot.rs)."),
@@ -941,7 +951,7 @@ MANIFEST_TEXT["C20"] = dict(
           "amount types); `!a` for Bvf, &Bvf, Bvd, &Bvd (separate body), Bv. All contracts state the result over the whole abstract view and leave borrowed operands untouched (they are `&` parameters: Rust's type system, and "
           "the contracts mention only their old value). Exploration for the remaining forms: every owned/borrowed/assign form of + - * / % & | ^ << >> ! and the native-integer forms are compared against each other "
           "(identical length and bits, borrowed operands unchanged)." + DYN_NOTE),
-    note=("Native-integer right operands of the compound assignments + - & | ^ are verified for Bvf, Bvd and Bv (x: u8..u64): same result as with a vector of length w and value x. Not under contract (second engine only): forms of * / %, the non-assigning native-integer forms, Bv's forms with a by-value or Bvf/Bvd right operand, the by-value / by-reference shift forwarders. "
+    note=("Native-integer right operands of the compound assignments + - & | ^ are verified for Bvf, Bvd and Bv (x: u8..u64): same result as with a vector of length w and value x. Not under contract (second engine only): forms of * / %, the non-assigning native-integer forms, Bv's forms with a by-value or Bvf/Bvd right operand, Bv's shift forwarders (the shift forwarders of Bvf and Bvd are verified). "
           "Assumed: derive(Clone) of Bvf/Bvd returns a structurally equal value (T1). " + TRUST_NOTE))
 MANIFEST_TEXT["C01"] = dict(
     text=("Proof (add/sub): the real bodies of AddAssign/SubAssign<&Bvf<I2,N2>> for Bvf<I1,N1> (both the same-word-size branch and the re-chunking branch through get_int) are verified against the VALUE-level contract "
